@@ -206,6 +206,42 @@ func (e *c08Explorer) recover(fs vcrash.FS, c c08Case, what string) {
 			}
 		}
 	}
+	// the same state again: the store starts, retention deletes every fraction (what the interrupted seal left behind
+	// included), and the store is started once more - it comes up, and nothing of the deleted fraction is served
+	if n := atomic.LoadInt64(&e.nrec); e.r.Thorough() || n%4 == 1 || e.r.Replay != "" {
+		d4 := vfrac.MkTmp("c08r")
+		defer os.RemoveAll(d4)
+		if err := fs.Materialize(d4); err != nil {
+			panic(err)
+		}
+		var r4, r5 stageResult
+		j4, err := e.rec.Do(stageJob{Dir: d4, DeleteAll: true}, &r4, 120*time.Second)
+		if err != nil {
+			panic(err)
+		}
+		if j4.Died || j4.Hung || r4.LoadErr != "" {
+			return // judged above
+		}
+		j5, err := e.rec.Do(stageJob{Dir: d4}, &r5, 120*time.Second)
+		if err != nil {
+			panic(err)
+		}
+		e.r.Add("evaluations", 1)
+		e.r.Add("recoveries_after_deletion", 1)
+		switch {
+		case j5.Died || j5.Hung:
+			e.r.Violation(fmt.Sprintf("%s: store-does-not-come-back after retention deleted the recovered fraction %s cause=%s", what, cfgs, normCause(firstCause(j5.Stderr))), c, desc+"\n"+tailStr(j5.Stderr, 1500))
+		case r5.LoadErr != "":
+			e.r.Violation(fmt.Sprintf("%s: load-error after retention deleted the recovered fraction %s %s", what, cfgs, normCause(r5.LoadErr)), c, desc+"\n"+r5.LoadErr)
+		default:
+			for _, st := range r5.Before {
+				if st.Status != "absent" {
+					e.r.Violation(fmt.Sprintf("%s: a document of the deleted fraction is served again %s", what, cfgs), c, desc+fmt.Sprintf("\n%+v", st))
+					break
+				}
+			}
+		}
+	}
 }
 
 func (e *c08Explorer) runConfig(base vcrash.FS, ingest []int, skipSort, keepMeta bool, only *c08Case) {
